@@ -1,0 +1,72 @@
+//go:build verif
+
+package tls
+
+// Hooks for property C29 (fingerprinted ClientHellos): zcrypto's own
+// ClientHello parser with read-only accessors, and the tables that define which
+// fingerprint contents CheckImplemented / marshal accept (generator domain only).
+
+// VerifC29ClientHello is a ClientHello as read back by clientHelloMsg.unmarshal.
+type VerifC29ClientHello struct{ m *clientHelloMsg }
+
+// VerifC29ParseClientHello runs clientHelloMsg.unmarshal on a complete
+// handshake message (4-byte header included).
+func VerifC29ParseClientHello(msg []byte) (*VerifC29ClientHello, bool) {
+	m := new(clientHelloMsg)
+	if !m.unmarshal(append([]byte(nil), msg...)) {
+		return nil, false
+	}
+	return &VerifC29ClientHello{m}, true
+}
+
+func (h *VerifC29ClientHello) Vers() uint16                { return h.m.vers }
+func (h *VerifC29ClientHello) Random() []byte              { return h.m.random }
+func (h *VerifC29ClientHello) SessionID() []byte           { return h.m.sessionId }
+func (h *VerifC29ClientHello) CipherSuites() []uint16      { return h.m.cipherSuites }
+func (h *VerifC29ClientHello) CompressionMethods() []uint8 { return h.m.compressionMethods }
+func (h *VerifC29ClientHello) ServerName() string          { return h.m.serverName }
+func (h *VerifC29ClientHello) OCSPStapling() bool          { return h.m.ocspStapling }
+func (h *VerifC29ClientHello) SupportedPoints() []uint8    { return h.m.supportedPoints }
+func (h *VerifC29ClientHello) TicketSupported() bool       { return h.m.ticketSupported }
+func (h *VerifC29ClientHello) SessionTicket() []byte       { return h.m.sessionTicket }
+func (h *VerifC29ClientHello) SecureRenegotiationSupported() bool {
+	return h.m.secureRenegotiationSupported
+}
+func (h *VerifC29ClientHello) SecureRenegotiation() []byte { return h.m.secureRenegotiation }
+func (h *VerifC29ClientHello) ExtendedMasterSecret() bool  { return h.m.extendedMasterSecret }
+func (h *VerifC29ClientHello) ALPNProtocols() []string     { return h.m.alpnProtocols }
+func (h *VerifC29ClientHello) SCTs() bool                  { return h.m.scts }
+func (h *VerifC29ClientHello) SupportedCurves() []uint16 {
+	out := make([]uint16, len(h.m.supportedCurves))
+	for i, c := range h.m.supportedCurves {
+		out[i] = uint16(c)
+	}
+	return out
+}
+func (h *VerifC29ClientHello) SignatureAlgorithms() []uint16 {
+	out := make([]uint16, len(h.m.supportedSignatureAlgorithms))
+	for i, c := range h.m.supportedSignatureAlgorithms {
+		out[i] = uint16(c)
+	}
+	return out
+}
+
+// VerifC29ImplementedSuites lists the ids of implementedCipherSuites (what
+// ClientFingerprintConfiguration.marshal accepts without ForceSuites).
+func VerifC29ImplementedSuites() []uint16 {
+	var out []uint16
+	for _, s := range implementedCipherSuites {
+		out = append(out, s.id)
+	}
+	return out
+}
+
+// VerifC29DefaultCurves lists defaultCurvePreferences (what
+// SupportedCurvesExtension.CheckImplemented accepts).
+func VerifC29DefaultCurves() []uint16 {
+	var out []uint16
+	for _, c := range defaultCurvePreferences {
+		out = append(out, uint16(c))
+	}
+	return out
+}
